@@ -144,7 +144,24 @@ def cases(tier, seed):
             c["id"] = "%s{%s}" % (kind, ",".join(combo))
             c["key"] = key_of(["C14", c["id"], c["doc"], c["settings"]])
             out.append(c)
+        # the same type space fed by a SECOND call (another document sharing the hand-written / patched definition): the settings hold for it too
+        if kind in ("struct", "enum", "newtype"):
+            for combo in ((), ("replace",), ("replace", "derive"), ("patch",), ("derive",)):
+                c = {"kind": kind, "features": list(combo), "doc": document(kind), "settings": settings_for(combo), "second": True}
+                c["id"] = "%s{%s}+second-call" % (kind, ",".join(combo))
+                c["key"] = key_of(["C14", c["id"], c["doc"], c["settings"]])
+                out.append(c)
     return out
+
+
+def ops_for(c):
+    ops = [{"root": c["doc"]}]
+    if c.get("second"):
+        late = {"Late": obj({"t": ref("Tgt"), "ts": {"type": "array", "items": ref("Tgt")}, "n": INT}, ["t"])}
+        if "replace" in c["features"]:
+            late["Tgt"] = copy.deepcopy(c["doc"]["definitions"]["Tgt"])   # the second document defines the replaced type again (only a replaced name may be re-added)
+        ops.append({"refs": late})
+    return ops
 
 
 def nrm(s):
@@ -188,15 +205,17 @@ def execute(cases_, tier, seed):
         cases_ = [base] + cases_
     res.rule = ("one case = (target kind, settings assignment) over a document holding every use site; non-trivial = case with >=1 settings feature on; "
                 "distinct by (document, settings)")
-    jobs = [{"id": c["key"], "settings": c["settings"], "ops": [{"root": c["doc"]}], "want": ["scan", "tokens"]} for c in cases_]
+    jobs = [{"id": c["key"], "settings": c["settings"], "ops": ops_for(c), "want": ["scan", "tokens"]} for c in cases_]
     ans = adapter.run_jobs(jobs)
     base_scan = {}
     for c in cases_:
         if not c["features"]:
-            base_scan[c["kind"]] = ans[c["key"]].get("scan")
+            base_scan[(c["kind"], bool(c.get("second")))] = ans[c["key"]].get("scan")
     # behavioural part: one wire case per (case, probed type)
     placed, owner = [], []
     for c in cases_:
+        if c.get("second"):
+            continue   # the two-call variants are judged on the generated items only
         for t in PROBED:
             if "replace" in c["features"] and t in ("Tgt", "UMember", "UExt", "UMap"):
                 continue   # affected by the replacement
@@ -219,14 +238,14 @@ def execute(cases_, tier, seed):
         feats = {"kind": c["kind"], "features": ",".join(c["features"])}
         if c["features"]:
             res.nontrivial += 1
-        op = (a.get("ops") or [{}])[0]
+        op = next((o for o in (a.get("ops") or [{}]) if o.get("status") != "ok"), (a.get("ops") or [{}])[0])
         if a.get("abort") or op.get("status") != "ok" or (a.get("render") or {}).get("status") != "ok" or not a.get("syn_ok"):
             res.violations.append(Violation(c["key"], "ingest-failed", "%s: %s" % (c["id"], op or a.get("render")), c, expected="ok", observed={"op": op, "render": a.get("render")}, features=feats))
             continue
         scan = a["scan"]
         items = type_items(scan)
         fts = all_field_types(scan)
-        base = base_scan.get(c["kind"])
+        base = base_scan.get((c["kind"], bool(c.get("second"))))
         base_fts = {(i, m): t for (i, m, t) in all_field_types(base)} if base else {}
         probs = []
         F = set(c["features"])
